@@ -131,7 +131,7 @@ theorem gen_newton (sqrt : K → K) (sh : Shape K) (P1 S : V3 K) (sj : K) :
 /-- structural facts read off the AST of the current source -/
 theorem gen_structure :
     Generated.C19.multiDotIsRowwiseDot = true ∧ Generated.C19.refractIndicesThreaded = true ∧
-    Generated.C19.conicUsesSagDerAndZeroAzimuthal = true := by decide
+    Generated.C19.conicUsesSagDerAndZeroAzimuthal = true ∧ Generated.C19.newtonStartsOnVertexPlane = true := by decide
 
 /-! ## reflection -/
 
